@@ -157,6 +157,70 @@ func ruleC09Shared(p *Prog, a *Anchors, r *Report) {
 		_, isParam := base.(*ssa.Parameter)
 		return n != nil && n.Obj().Name() == "ExecutionContext" && fld == field && isParam
 	}, "the child context refers to its parent's state map", "a child context with its own (or no) state map hides the positions stored by the tags executed in it from the next iteration")
+	// a template executed by another one (include, ssi) is part of the same rendering: where the executor builds the
+	// context of such a nested execution it takes over the state map of the context that executes it. (Otherwise
+	// {% for x in xs %}{% include "row" %}{% endfor %} with an ifchanged/cycle in row starts anew in every pass.)
+	ex := a.ExecCore
+	var from *ssa.Parameter
+	if ex != nil {
+		for _, pa := range ex.Params[1:] {
+			if pt, ok := pa.Type().(*types.Pointer); ok && types.Identical(pt.Elem(), a.ExecCtx) {
+				from = pa
+			}
+		}
+	}
+	key := "nested-execution:share"
+	switch {
+	case ex == nil:
+		r.Unk(key, "-", "anchor unresolved: the executor")
+	case from == nil:
+		r.Bad(key, p.Pos(ex.Pos()), "the executor is not told which context executes a nested template (no *ExecutionContext parameter): every include/ssi starts a rendering of its own, with fresh cycle/ifchanged state")
+	default:
+		taken := false
+		for _, b := range ex.Blocks {
+			for _, in := range b.Instrs {
+				s, ok := in.(*ssa.Store)
+				if !ok || !isFieldAddrOf(s.Addr, "ExecutionContext", field) {
+					continue
+				}
+				base, n, fld := fieldLoadBase(s.Val)
+				if n != nil && n.Obj().Name() == "ExecutionContext" && fld == field && stripLoad(base) == ssa.Value(from) {
+					taken = Guarded(in, func(c ssa.Value, pol bool) bool {
+						x, eq, isNil := condIsNilTest(c)
+						return isNil && stripLoad(x) == ssa.Value(from) && eq != pol
+					})
+				}
+			}
+		}
+		// the tags that execute templates hand their own context over
+		handed, sites := true, 0
+		for _, e := range p.Callers(p.CG, ex) {
+			caller := e.Site.Parent()
+			args := callArgs(e.Site.Common())
+			idx := indexOfParam(ex, from)
+			if idx >= len(args) {
+				continue
+			}
+			arg := stripLoad(args[idx])
+			if isNilConst(arg) {
+				continue // executed by the caller of the library
+			}
+			sites++
+			// through the delegating wrappers: the argument is the wrapper's own parameter or the tag's ctx
+			if _, isP := arg.(*ssa.Parameter); !isP {
+				handed = false
+			}
+			_ = caller
+		}
+		switch {
+		case !taken:
+			r.Bad(key, p.Pos(ex.Pos()), "the context of a nested execution does not take over the state map of the context that executes it")
+		case !handed || sites == 0:
+			r.Bad(key, p.Pos(ex.Pos()), "no tag hands its own context to the nested execution (call sites with a context: %d)", sites)
+		default:
+			r.OK(key, p.Pos(ex.Pos()), "a nested execution takes over the state map of the executing context (%d call site(s) hand it on)", sites)
+		}
+	}
 }
 
 // branchShape describes an ifequal-like Execute: result = EqualValueTo(first, second) [negated?]; then/else wrappers.
